@@ -123,7 +123,7 @@ class Resels:
         -------
         resels : float
         """
-        return pos_recipr(np.power(fwhm / np.sqrt(4*np.log(2)) * self.wedge, self.D))
+        return pos_recipr(np.power(fwhm / (np.sqrt(4*np.log(2)) * self.wedge), self.D))
 
     def __iter__(self):
         """ Return iterator
